@@ -226,8 +226,9 @@ def read_messages(rows, types):
             fields.append(dict(num=f['num'], name=f['name'], ptype=f['type'], baseType=base_of(f['type']), array=f['array'],
                                fixed=f['fixed'], acc=nth(f['accs'], 0, parse_bool, False) or f['name'] in acc_by_ref,
                                scale=sc, offset=off, units=f['units'], comps=components(f), subs=subs, row=f['row']))
+        order = [f['num'] for f in fields]
         fields.sort(key=lambda f: f['num'])
-        out.append(dict(num=m['num'], name=m['name'], fields=fields, row=m['row']))
+        out.append(dict(num=m['num'], name=m['name'], fields=fields, row=m['row'], order=order))
     out.sort(key=lambda m: m['num'])
     return out, basebyte
 
@@ -310,6 +311,8 @@ def main(argv):
     write_if_changed(os.path.join(os.path.dirname(out), 'XlsxTypes.lean'), t)
     s += '/-- declared fixed array lengths (message, field, n) -/\ndef fixedLens : FixedLens := [' + \
          ', '.join(f'({a}, {b}, {c})' for a, b, c in fixed) + ']\n'
+    s += '/-- field numbers of each message in the order of the sheet rows (message, numbers) -/\ndef fieldOrder : List (Nat × List Nat) := [' + \
+         ', '.join(f"({m['num']}, [{', '.join(str(n) for n in m['order'])}])" for m in mesgs) + ']\n'
     s += f'def sheetRows : Nat × Nat := ({len(sheets["Types"])}, {len(sheets["Messages"])})\n'
     s += 'end Fit.Gen.Xlsx\n'
     write_if_changed(out, s)
